@@ -31,7 +31,7 @@ func (a *An) c15OwnTag() {
 	a.WhoMayWrite("W.own-tag", fld, "(*Conversation).generateInstanceTag", "(*Conversation).InitializeInstanceTag")
 	n := 0
 	for _, st := range a.DirectStoresTo(fld) {
-		if st.Parent() != fn {
+		if !a.C.within(st, fn) {
 			continue
 		}
 		n++
@@ -179,7 +179,7 @@ func (a *An) c15Writers() {
 		return
 	}
 	for _, st := range a.StoresTo(fld) {
-		fn := a.C.Name(st.Parent())
+		fn := a.C.Name(a.C.owner(st.Parent()))
 		key := "write|theirInstanceTag|" + fn
 		if fn == "(otrV3).verifyInstanceTags" {
 			a.R.Ok("W.peer-tag", key, "peer tag written by the validating function", a.C.InstrPos(st))
@@ -477,7 +477,7 @@ func (a *An) returnsDeep(fn *ssa.Function, depth int) []*ssa.Return {
 		var call *ssa.Call
 		deleg := len(r.Results) > 1 && depth < 2
 		for i, v := range r.Results {
-			ex, ok := v.(*ssa.Extract)
+			ex, ok := resolveLocal(v).(*ssa.Extract)
 			if !ok || ex.Index != i {
 				deleg = false
 				break
@@ -490,7 +490,7 @@ func (a *An) returnsDeep(fn *ssa.Function, depth int) []*ssa.Return {
 			call = c
 		}
 		if deleg && call != nil {
-			if g := call.Call.StaticCallee(); g != nil && a.C.IsLib(g) && g.Blocks != nil {
+			if g := call.Call.StaticCallee(); g != nil && a.C.isNew(g) {
 				out = append(out, a.returnsDeep(g, depth+1)...)
 				continue
 			}
